@@ -279,6 +279,14 @@ def make_tables(pats, fmts, strings, ints, ts):
         except OverflowError:
             rows.append([n, None])
     ext['fltOfInt'] = rows
+    # compile time, since the repair of _BoundedFloat.check: does the integer convert to a double without loss
+    exact = []
+    for n in sorted(ints):
+        try:
+            exact.append([n, float(n) == n])
+        except OverflowError:
+            exact.append([n, False])
+    cext['intExact'] = exact
     full, pre = [], []
     for p in sorted(pats):
         try:
